@@ -59,7 +59,8 @@ ScalarProfiles == {
   P("sc",       "scalar", "none",    FALSE, FALSE, FALSE, FALSE) }  \* every scalar implementation
 
 
-Lens   == {"0", "1", "size-1", "size", "size+1", "2size+40", "other"}
+\* "2size" (+-1): the length other serialisation formats of the same groups use (uncompressed x||y vs compressed)
+Lens   == {"0", "1", "size-1", "size", "size+1", "2size-1", "2size", "2size+1", "2size+40", "other"}
 Ranges == {"lt", "eq", "gt", "ff"}
 Mems   == {"sub", "curve", "off", "id"}
 
